@@ -125,12 +125,20 @@ pub fn check_sim(prop: &str, tier: &str) -> i32 {
         }
         absorb(&mut report, &r, &props, &mut per_scenario);
     }
+    // restart halves (journal engine) of the properties that quantify over crash points
+    if matches!(prop, "C03" | "C06" | "C07" | "C09" | "C13") {
+        let jbudget = if quick { Duration::from_secs(40) } else { Duration::from_secs(15 * 60) };
+        let (found, stats) = crate::journal::run(tier, Instant::now() + jbudget);
+        machinery.extend(stats.machinery.iter().cloned());
+        crate::journal::fill_report(&mut report, prop, found, &stats);
+    }
     let memo = tako::verif::sched_memo_stats();
     if memo.audit_failures > 0 {
         machinery.push(format!("scheduling memo audit failed {} times", memo.audit_failures));
     }
+    let journal_rule = std::mem::take(&mut report.rule);
     report.rule = format!(
-        "Engine A: breadth-first exploration of the closed cluster (real core/reactor/scheduler/HQ state/worker state machines) over scenario families {:?}; a case is a canonical state; every transition is one real handler call; all message interleavings for every placement of the budgeted deviations",
+        "{journal_rule} Engine A: breadth-first exploration of the closed cluster (real core/reactor/scheduler/HQ state/worker state machines) over scenario families {:?}; a case is a canonical state; every transition is one real handler call; all message interleavings for every placement of the budgeted deviations",
         sim_families(prop)
     );
     report.extra.insert("scenarios".into(), json!(per_scenario));
@@ -181,6 +189,7 @@ pub fn replay_file(path: &str) -> i32 {
             if hit { 1 } else { 0 }
         }
         "auth" => crate::auth::replay(&v["replay"]),
+        "journal" => crate::journal::replay(&v),
         other => {
             eprintln!("replay for engine {other} is handled by its module");
             2
